@@ -394,6 +394,33 @@ func c15Gen(rt *rapid.T) c15Scenario {
 		sc.Users = append(sc.Users, c15User{Bypass: rapid.IntRange(0, 3).Draw(rt, "bypass") == 0, Cap: rapid.SampledFrom([]int{0, 1, 2, 2, 3, 3, 4}).Draw(rt, "cap")})
 	}
 	sids := []uint32{0, 1, 2, 3, 0xffffffff}
+	if rapid.IntRange(0, 9).Draw(rt, "shape") < 4 {
+		// the shape the admission clauses are about: a user that already has a live session (so that only the
+		// per-session authorisation is consulted) is edited through the admin API and then asks for another session
+		u := rapid.IntRange(0, nu-1).Draw(rt, "su")
+		sc.Users[u].Bypass = false
+		if sc.Users[u].Cap < 2 {
+			sc.Users[u].Cap = 2 + rapid.IntRange(0, 2).Draw(rt, "scap")
+		}
+		first := rapid.SampledFrom(sids).Draw(rt, "s1")
+		sc.Steps = append(sc.Steps, c15Step{K: "connect", Attempts: []c15Attempt{{U: u, Sid: first}}})
+		ne := rapid.IntRange(1, 2).Draw(rt, "nedits")
+		for j := 0; j < ne; j++ {
+			f := rapid.SampledFrom([]string{"cap", "upcredit", "downcredit", "expiry"}).Draw(rt, "sfield")
+			var v int64
+			switch f {
+			case "cap":
+				v = int64(rapid.IntRange(0, 4).Draw(rt, "scapv"))
+			case "expiry":
+				v = rapid.SampledFrom([]int64{-10, -1, -50, 0, 100, 1000000}).Draw(rt, "sexpv")
+			default:
+				v = rapid.SampledFrom([]int64{0, -1, -5, -1 << 62, -1 << 63, 1, 1 << 40}).Draw(rt, "scredv")
+			}
+			sc.Steps = append(sc.Steps, c15Step{K: "edit", U: u, Field: f, Val: v})
+		}
+		second := rapid.SampledFrom(sids).Draw(rt, "s2")
+		sc.Steps = append(sc.Steps, c15Step{K: "connect", Attempts: []c15Attempt{{U: u, Sid: second}, {U: u, Sid: first}}})
+	}
 	ns := rapid.IntRange(1, 8).Draw(rt, "nsteps")
 	for i := 0; i < ns; i++ {
 		k := rapid.IntRange(0, 99).Draw(rt, "kind")
@@ -421,7 +448,7 @@ func c15Gen(rt *rapid.T) c15Scenario {
 			case "expiry":
 				v = rapid.SampledFrom([]int64{-10, -1, -50, 100, 1000000}).Draw(rt, "expv")
 			default:
-				v = rapid.SampledFrom([]int64{0, -5, 1, 1 << 40}).Draw(rt, "credv")
+				v = rapid.SampledFrom([]int64{0, -5, -1 << 63, 1, 1 << 40}).Draw(rt, "credv")
 			}
 			eu := rapid.IntRange(0, nu-1).Draw(rt, "eu")
 			sc.Steps = append(sc.Steps, c15Step{K: "edit", U: eu, Field: f, Val: v})
